@@ -773,10 +773,10 @@ func (sp *StreamParser) ExecCmd(cb RdbObjExecutor) {
 		// * (deleted flag in the entry flags set). So the total number of items
 		// * actually inside the listpack (both deleted and not) is count+deleted.
 
-		count := lp.NextInteger()              // items count
-		deleted := lp.NextInteger()            // deleted count
-		numFields := lp.NextInteger()          // num fields
-		fields := make([][]byte, 0, numFields) // fields
+		count := lp.NextInteger()     // items count
+		deleted := lp.NextInteger()   // deleted count
+		numFields := lp.NextInteger() // num fields
+		var fields [][]byte           // fields (not sized by numFields, which a damaged listpack can make arbitrary)
 		for j := int64(0); j < numFields; j++ {
 			fields = append(fields, lp.Next())
 		}
